@@ -15,6 +15,7 @@ pub mod c11;
 pub mod c12;
 pub mod c13;
 pub mod c14;
+pub mod c15;
 pub mod c16;
 pub mod c17;
 
@@ -130,6 +131,14 @@ pub fn registry() -> Vec<Entry> {
             150_000,
             "the same four program sources x a random permutation of t0-t6 among themselves and of s0-s11 among themselves x an injective renaming of a random subset of labels to fresh identifiers (upper case, leading underscore, dots, digits): the diagnostics (code, statement, operand) must be unchanged and the registers they designate must be the images under the permutation. Non-trivial = the base has a diagnostic and a register moved, or >= 3 labels renamed.",
             &["error titles that list label names are compared by code and location, not by text"],
+        ),
+        entry::<c15::C15>(
+            "C15",
+            1600,
+            3000,
+            120_000,
+            "program (four sources, clean and violating) x random include tree cut at line boundaries (up to 4-5 files, nesting, several includes per file) x reader fault (not found, IO error, already read) or a self-/cyclic re-inclusion directive. Through the in-memory FileReader: the diagnostics of the split program, each located in the file that holds its text and mapped to the pasted line, must equal those of the single pasted file (minus the subtree of a failing include); each failing include must give an error located exactly on its path operand; the import must stay within a budget. For one case in 12 the same files are written to a scratch directory and linted by the rva binary: --all-files must show the library's items, the default output exactly the base-file items plus the right count for other files, and the tool must terminate. Non-trivial = a diagnostic in a non-base file or a fault.",
+            &["MemReader decides 'already read' by path, like a file-system reader", "CLI part only for 'not found' faults (IO errors cannot be provoked portably on disk)"],
         ),
         entry::<c16::C16>(
             "C16",
